@@ -211,12 +211,14 @@ func Lint(dir string, files map[string][]byte, order []string, o Opts) (res Resu
 	for _, n := range order {
 		paths = append(paths, filepath.Join(dir, n))
 	}
-	nameMu.Lock()
 	finder := discovery.NewGlobFinder(paths,
 		git.NewPathFilter(config.MustCompileRegexes(cfg.Parser.Include...), config.MustCompileRegexes(cfg.Parser.Exclude...), relaxed),
 		schema, names, cfg.Owners.CompileAllowed())
-	entries, err := finder.Find()
-	nameMu.Unlock()
+	entries, err := func() ([]discovery.Entry, error) {
+		nameMu.Lock()
+		defer nameMu.Unlock() // a panic inside the parser must not leave the lock held (C02 records it as a Crash)
+		return finder.Find()
+	}()
 	if err != nil {
 		res.FindErr = err.Error()
 		return res
